@@ -746,12 +746,12 @@ def _len_zero_edges(ctx, b, holders):
                     if sd is not None and sd[1] == "call":
                         c = ctx.call_at(b, sd[0].bb)
                         p = c.arg_path(0)
-                        if c.tname == HBT + "len" and p is not None and p.root in holders and not p.fields():
+                        if c.tname == HBT + "len" and p is not None and p.root in holders and (not p.fields() or ctx.roles.is_old_place(p)):
                             empty_if_true = (rv["op"] == "Eq")
         elif d[1] == "call":
             c = ctx.call_at(b, d[0].bb)
             p = c.arg_path(0)
-            if c.tname == HBT + "is_empty" and p is not None and p.root in holders and not p.fields():
+            if c.tname == HBT + "is_empty" and p is not None and p.root in holders and (not p.fields() or ctx.roles.is_old_place(p)):
                 empty_if_true = True
         if empty_if_true is None:
             continue
@@ -762,7 +762,7 @@ def _len_zero_edges(ctx, b, holders):
     return out
 
 
-def _dropped_nonempty(ctx, b, start_bb, first_holder):
+def _dropped_nonempty(ctx, b, start_bb, first_holder, no_user_code=False):
     """Search a normal path from start_bb on which the table held in local first_holder (or in a local / wrapper it is moved to) is
     dropped, or handed by value to something that is not an owning iterator, without having been found empty and without having
     been stored as the old table.  Returns (path, what) or None."""
@@ -788,12 +788,17 @@ def _dropped_nonempty(ctx, b, start_bb, first_holder):
             if not pl["proj"] and pl["local"] in flags and rv["k"] == "use" and rv["op"]["k"] == "const":
                 envd[pl["local"]] = rv["op"].get("val")
             moved = []
-            if rv["k"] == "use" and rv["op"]["k"] == "move" and not rv["op"]["place"]["proj"] and rv["op"]["place"]["local"] in holders:
+            if rv["k"] == "use" and rv["op"]["k"] == "move" and rv["op"]["place"]["proj"] and rv["op"]["place"]["local"] in holders \
+                    and not pl["proj"] and all(e["k"] in ("downcast", "field") for e in rv["op"]["place"]["proj"]):
+                # the payload is moved out of its wrapper (`if let Some(lo) = taken`): the table now lives in the new local
+                holders.discard(rv["op"]["place"]["local"])
+                holders.add(pl["local"])
+            elif rv["k"] == "use" and rv["op"]["k"] == "move" and not rv["op"]["place"]["proj"] and rv["op"]["place"]["local"] in holders:
                 moved = [rv["op"]["place"]["local"]]
                 holders.discard(moved[0])
                 if not pl["proj"]:
                     holders.add(pl["local"])
-                elif ro.is_main_place(b.expand(pl)) or ro.is_old_place(b.expand(pl)):
+                elif ro.is_main_place(b.expand(pl)) or ro.is_old_place(b.expand(pl)) or ro.is_left_place(b.expand(pl)):
                     pass          # put (back) into a table slot of the map
                 else:
                     holders.add(pl["local"])
@@ -817,11 +822,18 @@ def _dropped_nonempty(ctx, b, start_bb, first_holder):
                 holders.discard(dp["local"])
         if k == "call":
             c = ctx.call_at(b, x)
+            if no_user_code and holders and not empty and (c.unresolved or c.indirect) and not in_macro(c.t["span"], "debug_assert", "panic", "unreachable", "assert"):
+                return path, "still owned by a local variable while user code (%s at %s) runs: if that panics, unwinding drops the table" % (c.tname or "<indirect call>", c.where())
             for a in c.args:
                 if a["k"] == "move" and not a["place"]["proj"] and a["place"]["local"] in holders:
                     holders.discard(a["place"]["local"])
                     if c.tname in (HBT + "into_iter", HBT + "into_iter_from"):
                         continue
+                    if c.name in (OPT + "map", OPT + "and_then", OPT + "map_or", OPT + "map_or_else"):
+                        # handed to a combinator whose closure / function turns it into an owning iterator
+                        fbs = c.closure_args() + c.fn_value_args()
+                        if fbs and all(any(x.tname in (HBT + "into_iter", HBT + "into_iter_from") for x in ctx.calls(fb)) for fb in fbs):
+                            continue
                     if c.name in ("core::mem::replace", "core::mem::swap"):
                         q = c.arg_path(0)
                         if q is not None and (ro.is_main_place(ctx.resolve(b, q)[1]) or ro.is_old_place(ctx.resolve(b, q)[1])):
@@ -946,7 +958,15 @@ def rule_t_drop(ctx):
         for loc, how, used in sites:
             key = "%s:%s" % (b.path, how.replace(" ", "-"))
             if used:
-                R.inst(fn=b.path, site=b.where(loc), how=how, verdict="ok: the old table is handed on, not dropped")
+                # the old table is taken out and kept: it must end up in an owning iterator, or back in the map, without being dropped
+                # non-empty on the way and without user code running while a local variable owns it
+                cc = ctx.call_at(b, loc.bb)
+                w = None
+                if cc is not None and cc.dest is not None and not cc.dest["proj"] and cc.target is not None:
+                    w = _dropped_nonempty(ctx, b, cc.target, cc.dest["local"], no_user_code=True)
+                R.inst(fn=b.path, site=b.where(loc), how=how, verdict="ok: the old table is handed on, not dropped" if w is None else "VIOLATION")
+                if w is not None:
+                    R.viol(key + ":held", b.where(loc), "the old table taken out of the map at %s is %s (path %s)" % (b.where(loc), w[1], w[0]))
                 continue
             if wholesale:
                 R.inst(fn=b.path, site=b.where(loc), how=how, verdict="ok: the operation empties or overwrites the whole map")
